@@ -260,4 +260,43 @@ theorem ednsOK_remove_opt {pp pp' : PP} (P : PlainObj pp) (P' : PlainObj pp')
     subst hom; subst hom'
     exact EdnsOf.remove_opt rc (noopt_of_pieces h1) (noopt_after_opt hrest) _
 
+/-- the position field after `resize_rr`-style bookkeeping, as a map over the old position -/
+theorem map_if_optLt (oe : Option Nat) (off : Nat) (g : Nat → Nat) :
+    (if optLt (some off) oe then oe.map g else oe) = oe.map (fun x => if off < x then g x else x) := by
+  cases oe with
+  | none => simp [optLt]
+  | some x =>
+    by_cases h : off < x
+    · simp [optLt, h]
+    · simp [optLt, h]
+
+/-- whether the record under the cursor is the OPT record, read off the packet -/
+theorem isOpt_iff_type {pp : PP} (P : PlainObj pp) (sec : Section) (hs : sec.isRec = true) {ps1 ps2 : List Bytes} {rc : Bytes}
+    (hsplit : P.lst sec = ps1 ++ rc :: ps2) {ne : Nat} {ob oa : Bool}
+    (hr : RRAtPos pp.packet sec ⟨P.start sec + ps1.flatten.length, ne, P.start sec + ps1.flatten.length + rc.length⟩ ob oa) :
+    (isOptPiece rc = true ↔ get16 pp.packet ne = 41) ∧ (get16 pp.packet ne = 41 → sec = .additional) := by
+  obtain ⟨owner, f8, rd, pre, post, ob', oa', hpk, hprel, hrc, hgo, hf8, hlt, hnon, hr', hty⟩ := P.shape_at sec hs hsplit
+  have hne' : ne = pre.length + labSum owner + 1 := by
+    rw [← hprel] at hr
+    exact nameEnds_functional hr.1 hr'.1
+  have hshape := isOptPiece_shape owner f8 (put16 rd.length ++ rd) hgo hf8
+  have e : (encLabels owner ++ [0]) ++ f8 ++ (put16 rd.length ++ rd) = rc := by rw [hrc]; simp
+  rw [e] at hshape
+  have hbody := hr.2.2.2.2
+  simp only at hbody
+  refine ⟨⟨fun h => by rw [hne', hty]; exact (hshape.1 h).2, fun h => ?_⟩, fun h => ?_⟩
+  · simp only [h, if_true] at hbody
+    have h1 : ne = P.start sec + ps1.flatten.length + 1 := hbody.2.1
+    rw [hne', ← hprel] at h1
+    have : labSum owner = 0 := by omega
+    have ho : owner = [] := by
+      cases owner with
+      | nil => rfl
+      | cons l ls => simp [labSum] at this
+    rw [hne', hty] at h
+    exact hshape.2 ⟨ho, h⟩
+  · simp only [h, if_true] at hbody
+    exact hbody.1
+
+
 end Dns
